@@ -245,6 +245,36 @@ func runCheck(repo, prop, tier string, keep bool, only string, verbose bool) int
 				// depend on them: re-run with the loops abstracted by "true" and
 				// keep only the obligations that every write stays inside the
 				// modifies clause. The function stays "not proved".
+				if prop == "C13" && hasProp(j.c.Props, "C13") && isExportedEntry(fn) && !contractNeedsLock(j.c) {
+					// lock-discipline re-run: the guarded-by and escape
+					// obligations need no functional contract - check the
+					// function the way the zero-annotation sweep would
+					sc := &FuncContract{Key: j.c.Key, Pkg: j.c.Pkg, Props: []string{"C13"}, Mode: "int", Loops: map[int]*LoopSpec{},
+						Options: map[string]string{"sweep": "true", "noframe": "true", "old": "section"}}
+					y := NewExec(P, fn, sc)
+					func() {
+						defer func() {
+							if r := recover(); r != nil {
+								if _, isU := r.(unsupportedErr); isU {
+									y.abstract = true
+									return
+								}
+								panic(r)
+							}
+						}()
+						y.Verify()
+					}()
+					kept := 0
+					for _, o := range y.obls {
+						if !o.Canary && obligationInProperty(o, sc, prop) {
+							o.Name += " [lock-discipline re-run: the contract no longer binds]"
+							all = append(all, o)
+							kept++
+						}
+					}
+					rep.Notes = append(rep.Notes, fmt.Sprintf("lock-discipline re-run without the contract: %d obligations kept", kept))
+					continue
+				}
 				if fo := frameOnlyRerun(P, fn, j.c); fo != nil {
 					for _, o := range fo {
 						if devObl != "" && !strings.Contains(o.Name, devObl) {
